@@ -387,6 +387,12 @@ func checkC18(c *Ctx) {
 		if isCfgLoad2(v) {
 			return true
 		}
+		// a private copy of the configured config: (*tls.Config).Clone() copies every policy field
+		if cl, ok := an.Strip(v).(*ssa.Call); ok && depth <= 3 {
+			if g := cl.Common().StaticCallee(); g != nil && an.FuncPkgPath(g) == "crypto/tls" && g.Name() == "Clone" && len(cl.Common().Args) == 1 {
+				return isCfg(cl.Common().Args[0], depth+1)
+			}
+		}
 		// parameter of a helper of Run with a single call site: the argument given there
 		if p, ok := an.Strip(v).(*ssa.Parameter); ok {
 			if a, ok := an.UniqueCallerArg[p]; ok && partOfRun(p.Parent()) {
@@ -463,6 +469,39 @@ func checkC18(c *Ctx) {
 		var wrapCallBlock *ssa.BasicBlock // where tls.NewListener is called, when that is not the store's block (phi form)
 		for _, fs := range listenerStores(wrapFns) {
 			call, ok := an.Strip(fs.Store.Val).(*ssa.Call)
+			// the TLS listener built by a helper of Run: `s.listener, s.tlsConfig = newTLSListener(s.listener, cfg)`
+			if hv := an.Strip(fs.Store.Val); true {
+				var hc *ssa.Call
+				idx := 0
+				if ex, isEx := hv.(*ssa.Extract); isEx {
+					hc, _ = ex.Tuple.(*ssa.Call)
+					idx = ex.Index
+				} else if ok && !an.CalleeIs(call.Common(), "crypto/tls", "NewListener") {
+					hc = call
+				}
+				if hc != nil {
+					if hf := an.StaticCallee(hc.Common()); hf != nil && an.InModule(hf) && len(hf.Blocks) > 0 && partOfRun(hf) {
+						var inner *ssa.Call
+						same := true
+						for _, ret := range an.Returns(hf) {
+							res := an.ReturnResults(ret)
+							if idx >= len(res) {
+								same = false
+								continue
+							}
+							ic, isC := an.Strip(res[idx]).(*ssa.Call)
+							if !isC || !an.CalleeIs(ic.Common(), "crypto/tls", "NewListener") || (inner != nil && inner != ic) {
+								same = false
+								continue
+							}
+							inner = ic
+						}
+						if same && inner != nil {
+							call, ok = inner, true
+						}
+					}
+				}
+			}
 			if !ok {
 				// `ln := listen(); if cfg != nil { ln = tls.NewListener(ln, cfg) }; s.listener = ln`: the stored value is
 				// a phi of the plain listener and the TLS listener
@@ -481,13 +520,29 @@ func checkC18(c *Ctx) {
 				}
 				wrapStore = fs.Store
 				inner := call.Common().Args[0]
-				innerOK := isListenerLoad(inner)
+				innerOK := isListenerLoad(inner) || isListenerLoad(an.StripX(inner))
 				if ex, isEx := an.Strip(inner).(*ssa.Extract); isEx {
 					if lc, ok := ex.Tuple.(*ssa.Call); ok && an.CalleeIs(lc.Common(), "net", "Listen") {
 						innerOK = true
 					}
 				}
 				cfgOK := isCfg(call.Common().Args[1], 0)
+				// the listener's config is the caller's (or a Clone of it) as configured: nothing that runs as part of Run
+				// assigns a field of a tls.Config or calls one of its mutating methods (SetSessionTicketKeys, ...)
+				for _, wf := range wrapFns {
+					an.Instrs(wf, func(in ssa.Instruction) {
+						switch x := in.(type) {
+						case *ssa.Store:
+							if fa, isFA := x.Addr.(*ssa.FieldAddr); isFA && an.TypeIs(fa.X.Type(), "crypto/tls", "Config") {
+								R.Fail("C18-wrap", "(*Server).Run: the TLS configuration is used as configured", c.pos(in), "tls.Config."+an.FieldAddrName(fa)+" is assigned while the server starts: the listener no longer enforces exactly the configuration Run was given (a changed copy can, for instance, accept resumed sessions the configured policy never admitted)")
+							}
+						case ssa.CallInstruction:
+							if g := x.Common().StaticCallee(); g != nil && an.FuncPkgPath(g) == "crypto/tls" && g.Signature.Recv() != nil && an.TypeIs(g.Signature.Recv().Type(), "crypto/tls", "Config") && g.Name() != "Clone" {
+								R.Fail("C18-wrap", "(*Server).Run: the TLS configuration is used as configured", c.pos(in), "(*tls.Config)."+g.Name()+" is called while the server starts: the listener no longer enforces exactly the configuration Run was given (shared session-ticket keys, for instance, let a client resume a session that another listener's policy admitted)")
+							}
+						}
+					})
+				}
 				R.Check(innerOK && cfgOK, "C18-wrap", "(*Server).Run: tls.NewListener(plain listener, configured tls.Config)", c.pos(call), "wraps "+lname+" with exactly the WithTLSConfig value", sprintf("TLS listener is not built from the plain listener and the caller's config (listener=%v config=%v: %s)", innerOK, cfgOK, an.Path(call.Common().Args[1])))
 			}
 		}
@@ -1131,7 +1186,7 @@ func checkC07(c *Ctx) {
 			hasHandler := false
 			for rf := range reach {
 				for _, ic := range an.Calls(rf) {
-					if isHandlerInvoke(ic.Common()) || isOnClose(ic.Common()) {
+					if _, _, rep := onCloseReport(ic.Common()); isHandlerInvoke(ic.Common()) || rep {
 						hasHandler = true
 					}
 				}
@@ -1164,7 +1219,7 @@ func checkC07(c *Ctx) {
 					return false
 				}
 				cc := call.Common()
-				if isHandlerInvoke(cc) || isOnClose(cc) {
+				if _, _, rep := onCloseReport(cc); isHandlerInvoke(cc) || rep {
 					return true
 				}
 				if sf := an.StaticCallee(cc); sf != nil && an.InModule(sf) {
